@@ -24,7 +24,7 @@ def run(ctx):
                                max_ops=4 if T else 3, acts=[a for a in wl.ALL_ACTS if T or a not in ("ChangeScheme", "SetDefault")]),
                      None, True))
         #    C: a wallet with the library's default parameters (every decryption costs a full scrypt)
-        runs.append(("C", dict(import_ids=[1], new_ids=[2], labels=["", "x"] if T else [""], wscrypt="def", max_obj=2,
+        runs.append(("C", dict(import_ids=[1], new_ids=[2], labels=[""], wscrypt="def", max_obj=2,
                                max_ops=3 if T else 2, schemes=None if T else ["SHA256withECDSA"],
                                acts=["New", "Import", "ChangePassword", "Delete", "Reload"] if T else ["New", "Import", "ChangePassword", "Reload"]),
                      None, False))
